@@ -17,6 +17,11 @@ import DialsModel.Props.C05
 namespace Dials.C18
 open Dials Dials.Runtime Dials.Ez
 
+/-- F22: the environment layer of ez is the env source's exact-name `os.LookupEnv` (values reach the stack byte for
+byte, `=` inside a value included). -/
+theorem C18_environment_is_a_lookup : 1 ≤ Facts.envLookupCalls ∧ Facts.envOtherReads = 0 := by
+  decide
+
 /-- Regenerated facts of ez.go: the `dials.Params` literal delays verification and withholds the
 global callbacks, does not skip verification for good, passes both callbacks through; the sources
 are handed to Config in the order blank, env, flag; the file source goes into the Blank; the calls
